@@ -95,6 +95,9 @@ func (g defaultIntervalGenerator) Generate(x, y int) int {
 }
 
 func (g defaultIntervalGenerator) intn(n int) int {
+	if v, ok := verifJitter(n); ok {
+		return v
+	}
 	if g.Source == nil {
 		return rand.IntN(n)
 	}
